@@ -20,7 +20,7 @@ RULE = (
     "subclass (__bool__ False) and one falsy through __len__, an attribute plan (name in {k, name, uid, i}; values "
     "from a 3-value domain so several listed vertices match; some vertices lack the attribute; matching vertices "
     "may lie outside the universe) and a sought value that is equal but not identical to the stored one (big int "
-    "rebuilt at run time, float vs int, rebuilt str) or absent.  Oracle: the first vertex of bft / dft_recursive / "
+    "rebuilt at run time, float vs int, rebuilt str) or absent, or None (stored None must match, a vertex lacking the attribute must not).  Oracle: the first vertex of bft / dft_recursive / "
     "dft_iterative (the library's own listing, FORWARD + defaults) with hasattr and ==, else None; the search "
     "must return that very object; cross-checked against the reference orders.  Non-trivial = >= 2 listed "
     "vertices match, or the expected match is falsy, or a matching vertex exists only outside the universe / "
@@ -51,7 +51,7 @@ def strategy(tier):
         st.integers(0, 3),
         st.lists(st.integers(0, 3), min_size=1, max_size=8),
         st.integers(0, 8),
-        st.integers(0, 3),
+        st.integers(0, 4),
     )
 
 
@@ -72,11 +72,16 @@ def check_case(case):
     for i, v in enumerate(S.vs):
         sel = plan[i % len(plan)]
         if an == "k" and sel != 3:
-            v.k = (BIG + sel) if mode != 1 else (1000 + sel)
+            if mode == 4:
+                v.k = None if sel == 0 else BIG + sel   # stored None is a legitimate value to look for
+            else:
+                v.k = (BIG + sel) if mode != 1 else (1000 + sel)
         elif an == "name" and sel != 3:
             v.name = "n" + str(sel)
     s = case["sought"]
-    if an == "k":
+    if mode == 4 and an in ("k", "name"):
+        sought = None                                 # vertices LACKING the attribute must not match None
+    elif an == "k":
         if mode == 0:
             sought = int(str(BIG + s % 3))       # equal, not identical
         elif mode == 1:
@@ -140,4 +145,6 @@ def check_case(case):
         if exp is None:
             classes.add("no-match")
     classes.add("attr-" + an)
+    if sought is None:
+        classes.add("sought-None")
     return dict(nt=nt, classes=sorted(classes))
